@@ -7,8 +7,9 @@ mkdir -p .work evidence
 ( cd rs2lean && cargo build --offline --release )
 rs2lean/target/release/rs2lean "${VERIF_REPO:-/repo}/src" lean/Sm9/Gen
 python3 tools/gen_equiv.py lean/Sm9/Gen
+python3 tools/gen_limb_equiv.py lean/Sm9/Gen
 python3 tools/extract_consts.py "${VERIF_REPO:-/repo}" lean/Sm9/Gen/Consts.lean
-( cd lean && lake build sm9drv && lake build Sm9 Sm9.Gen.Equiv )
+( cd lean && lake build sm9drv && lake build Sm9 Sm9.Gen.Equiv Sm9.Gen.LimbEquiv )
 ( cd harness && RUSTFLAGS="--cfg john_yu_sm9_core_verif" cargo build --offline --release --target-dir target/int \
              && RUSTFLAGS="--cfg john_yu_sm9_core_verif" cargo build --offline --target-dir target/int )
 echo setup done
